@@ -506,20 +506,14 @@ func ruleC04SetMax(cx *Ctx) {
 	if fn == nil || sms == nil || maint == nil || mu == nil {
 		return
 	}
-	var lock, set, run, unlock ssa.Instruction
-	allInstrs(fn, func(in ssa.Instruction) {
-		switch {
-		case lockLike(in, mu):
-			lock = in
-		case unlockLike(in, mu):
-			unlock = in
-		case isCallTo(in, sms):
-			set = in
-		case isCallTo(in, maint):
-			run = in
-		}
-	})
-	ok := lock != nil && set != nil && run != nil && unlock != nil && instrDominates(lock, set) && instrDominates(set, run) && instrDominates(run, unlock)
+	// each step is the operation itself or a call of a helper that performs it on all its paths; two steps inside the
+	// same helper call are ordered inside that helper
+	memo := map[*ssa.Function]int{}
+	isLock := func(in ssa.Instruction) bool { return mutexOp(in, mu, "Lock") }
+	isUnlock := func(in ssa.Instruction) bool { return mutexOp(in, mu, "Unlock") }
+	isSet := func(in ssa.Instruction) bool { return isCallTo(in, sms) }
+	isRun := func(in ssa.Instruction) bool { return isCallTo(in, maint) }
+	ok := stepsInOrder(fn, memo, 0, isLock, isSet, isRun, isUnlock)
 	cx.R.Check(ok, rule, funcName(fn), "lock ≺ store ≺ maintenance ≺ unlock", cx.P.Pos(fn.Pos()), "the maximum is lowered and enforced atomically with respect to other maintenance")
 	// setMaximumSize really stores the argument
 	maxF := cx.P.Field("", "policy", "maximum")
@@ -611,4 +605,54 @@ func describeCallee2(in ssa.Instruction) string {
 		return describeCallee(ci)
 	}
 	return in.String()
+}
+
+// stepsInOrder: in fn the given operations happen in this order on every path: each is found as an instruction of fn
+// that is the operation or a call of a module helper that performs it on all of its paths (mustPerform); consecutive
+// steps found in the same helper call are ordered inside that helper.
+func stepsInOrder(fn *ssa.Function, memo map[*ssa.Function]int, depth int, steps ...func(ssa.Instruction) bool) bool {
+	if depth > 3 {
+		return false
+	}
+	find := func(is func(ssa.Instruction) bool) ssa.Instruction {
+		var out ssa.Instruction
+		allInstrs(fn, func(in ssa.Instruction) {
+			if out != nil {
+				return
+			}
+			if is(in) {
+				out = in
+				return
+			}
+			if c := calleeOf(in); c != nil && c.Pkg != nil && c.Pkg.Pkg.Path() == modPath && origin(c) != origin(fn) && mustPerform(c, is, memo) {
+				out = in
+			}
+		})
+		return out
+	}
+	var at []ssa.Instruction
+	for _, st := range steps {
+		in := find(st)
+		if in == nil {
+			return false
+		}
+		at = append(at, in)
+	}
+	for i := 0; i+1 < len(at); i++ {
+		if at[i] == at[i+1] {
+			// both inside the same helper call: ordered there
+			j := i + 1
+			for j+1 < len(at) && at[j+1] == at[i] {
+				j++
+			}
+			if c := calleeOf(at[i]); c == nil || !stepsInOrder(origin(c), memo, depth+1, steps[i:j+1]...) {
+				return false
+			}
+			continue
+		}
+		if !instrDominates(at[i], at[i+1]) {
+			return false
+		}
+	}
+	return true
 }
